@@ -1359,3 +1359,116 @@ func RLastLE(c *core.Ctx) {
 		c.Anchor("a binary search decremented by one in byteIndex")
 	}
 }
+
+// R-BMFALLBACK: where the good-suffix analysis found nothing, the scanner steps by one.
+// A shift larger than one position is sound only with a proof about the
+// occurrences (borders) of the matched tail in the pattern; the entries part I
+// of the table builder could not justify are therefore filled with the unit
+// step, which can never jump over a candidate.
+func RBmFallback(c *core.Ctx) {
+	c.Rule("R-BMFALLBACK", "in newBmPrefix every store into an element of the good-suffix table that stands under a test of that element against 0 (the entries the analysis left open) stores either the distance between two pattern positions that the enclosing test has just compared (the analysis proper) or the unit step — a variable that is only ever assigned the constants 1 and -1: no larger fallback shift, whose soundness would depend on the borders of the pattern, is installed", 2)
+	p := c.P
+	syn := p.Pkg("syntax")
+	info := syn.TypesInfo
+	fd, _ := p.DeclOf(p.LookupFunc("syntax", "newBmPrefix"))
+	pos := p.LookupField("syntax", "BmPrefix", "positive")
+	if fd == nil || pos == nil {
+		c.Anchor("syntax.newBmPrefix / BmPrefix.positive")
+		return
+	}
+	c.Visit("syntax.newBmPrefix")
+	// unit-step variables: int locals all of whose assignments are the constants 1 / -1
+	unit := map[types.Object]bool{}
+	notUnit := map[types.Object]bool{}
+	ast.Inspect(fd.Body, func(x ast.Node) bool {
+		as, ok := x.(*ast.AssignStmt)
+		if !ok || len(as.Lhs) != len(as.Rhs) {
+			return true
+		}
+		for i, l := range as.Lhs {
+			id, ok := ast.Unparen(l).(*ast.Ident)
+			if !ok {
+				continue
+			}
+			o := info.ObjectOf(id)
+			if v, ok := core.ConstInt(info, as.Rhs[i]); ok && (v == 1 || v == -1) && as.Tok != token.ADD_ASSIGN && as.Tok != token.SUB_ASSIGN {
+				unit[o] = true
+			} else {
+				notUnit[o] = true
+			}
+		}
+		return true
+	})
+	patF := p.LookupField("syntax", "BmPrefix", "pattern")
+	n := 0
+	var stack []ast.Node
+	ast.Inspect(fd.Body, func(x ast.Node) bool {
+		if x == nil {
+			stack = stack[:len(stack)-1]
+			return true
+		}
+		stack = append(stack, x)
+		ifs, ok := x.(*ast.IfStmt)
+		if !ok {
+			return true
+		}
+		be, ok := ast.Unparen(ifs.Cond).(*ast.BinaryExpr)
+		if !ok || be.Op != token.EQL {
+			return true
+		}
+		ix, ok := ast.Unparen(be.X).(*ast.IndexExpr)
+		if !ok || core.FieldOf(info, ix.X) != pos {
+			return true
+		}
+		if v, ok := core.ConstInt(info, be.Y); !ok || v != 0 {
+			return true
+		}
+		// cursors that an enclosing condition compares pattern characters at: pattern[a] != pattern[b]
+		cursors := map[types.Object]bool{}
+		for i := len(stack) - 2; i >= 0; i-- {
+			if outer, ok := stack[i].(*ast.IfStmt); ok {
+				ast.Inspect(outer.Cond, func(y ast.Node) bool {
+					if ie, ok := y.(*ast.IndexExpr); ok && patF != nil && core.FieldOf(info, ie.X) == patF {
+						if id, ok := ast.Unparen(ie.Index).(*ast.Ident); ok {
+							cursors[info.ObjectOf(id)] = true
+						}
+					}
+					return true
+				})
+			}
+		}
+		for _, st := range ifs.Body.List {
+			as, ok := st.(*ast.AssignStmt)
+			if !ok || len(as.Lhs) != 1 || len(as.Rhs) != 1 {
+				continue
+			}
+			lx, ok := ast.Unparen(as.Lhs[0]).(*ast.IndexExpr)
+			if !ok || core.FieldOf(info, lx.X) != pos {
+				continue
+			}
+			n++
+			okUnit := false
+			if id, ok := ast.Unparen(as.Rhs[0]).(*ast.Ident); ok {
+				o := info.ObjectOf(id)
+				okUnit = unit[o] && !notUnit[o]
+			}
+			if v, ok := core.ConstInt(info, as.Rhs[0]); ok && (v == 1 || v == -1) {
+				okUnit = true
+			}
+			// the distance between two positions whose characters the enclosing test has just compared:
+			// that is the analysis itself (an occurrence of the tail was found there), not a fallback
+			if d, ok := ast.Unparen(as.Rhs[0]).(*ast.BinaryExpr); ok && d.Op == token.SUB {
+				l, lok := ast.Unparen(d.X).(*ast.Ident)
+				r, rok := ast.Unparen(d.Y).(*ast.Ident)
+				if lok && rok && cursors[info.ObjectOf(l)] && cursors[info.ObjectOf(r)] {
+					okUnit = true
+				}
+			}
+			c.Check(okUnit, fmt.Sprintf("newBmPrefix / open entry #%d of the good-suffix table gets a justified shift", n), as.Pos(), "`%s`: the shift is neither the unit step nor the distance between two pattern positions the enclosing test compared; a larger fallback is sound only if no occurrence of the matched tail (no border of the pattern) lies within it — with the shortest instead of the longest border the scanner jumps over matches of self-overlapping literals", stmtStr(as))
+		}
+		return true
+	})
+	if n == 0 {
+		c.Anchor("the fallback fill of the good-suffix table in newBmPrefix")
+	}
+}
